@@ -122,6 +122,14 @@ type fakeService struct {
 	protoreflect.ServiceDescriptor
 	name    string
 	methods *fakeMethods
+	file    protoreflect.FileDescriptor // nil: a service descriptor without parent file
+}
+
+func (s *fakeService) ParentFile() protoreflect.FileDescriptor {
+	if s.file == nil {
+		return nil
+	}
+	return s.file
 }
 
 func (s *fakeService) FullName() protoreflect.FullName         { return protoreflect.FullName(s.name) }
